@@ -300,6 +300,17 @@ def resource_catalogue():
     one("index_4k", "c: [int...] = [1]\nx = c" + "[0]" * 1300 + "\n")
     one("call_4k", "f = fn() -> int { return 1 }\nx = f" + "()" * 1900 + "\n")
     one("elseif_4k", "if false {}" + " else if false {}" * 234 + "\n")
+    # constant-expression matrix: every binary operator between every pair of literal kinds (the compile-time
+    # folder has one arm per pair; type-incorrect pairs must be diagnostics), plus the prefix operators
+    lits = [("int", "3"), ("int0", "0"), ("intmax", "2147483647"), ("hex", "0xff"), ("bigint", "B3"), ("float", "1.5"),
+            ("byte", "0b11"), ("str", '"a"'), ("bool", "true"), ("nil", "nil"), ("list", "[1]")]
+    ops = ["+", "-", "*", "/", "%", "<<", ">>", "&", "|", "xor", "<", "<=", ">", ">=", "==", "!=", "&&", "||", "^", "is"]
+    for ka, a in lits:
+        for kb, b in lits:
+            for op in ops:
+                one("fold:%s:%s:%s" % (ka, op, kb), "x = %s %s %s\n" % (a, op, b))
+        for pre in ("-", "!", "typeof ", "get "):
+            one("fold:%s%s" % (pre.strip(), ka), "x = %s%s\n" % (pre, a))
     one("string4k", 'x = "' + "s" * 4000 + '"\n')
     one("string4k_unterminated", 'x = "' + "s" * 4000 + "\n")
     one("comment4k", "#" + "c" * 4000 + "\nx = 1\n")
